@@ -207,7 +207,7 @@ CHECKS = {
         "halmos/processes.py runs unmodified: threading.{Thread,Lock,RLock,Event,Condition}, concurrent.futures' Condition, the thread pool that shutdown(wait=False) uses, Popen, psutil and time are scheduler-owned shims (module attributes rebound in "
         "the harness process); scheduling points are every shim operation plus every source line of the racy functions of processes.py (sys.settrace). Process exit, communicate()-timeout expiry, spawn failure and a process ignoring SIGTERM (the grace wait then raises psutil.TimeoutExpired and only kill() ends it) are environment choices. For 11 harnesses "
         "(submit racing shutdown(wait=False|True), two jobs with a graceful shutdown and an independent waiter, a job with a time limit, submit after shutdown, graceful then forceful shutdown (directly and through ExecutorRegistry.shutdown_all), two submitters, spawn failure, solve_low_level with 5 s / 300 ms / no limit "
-        "and with a concurrent early-exit shutdown) every schedule with <= 1 deviation (thorough: <= 2 for the small harnesses) from the default schedule is executed to completion. Invariants per execution: no deadlock or livelock, no uncaught exception, "
+        "and with a concurrent early-exit shutdown) every schedule with <= 1 deviation (<= 2 for the two submit-vs-shutdown races; thorough: <= 2 for all small harnesses) from the default schedule is executed to completion. Invariants per execution: no deadlock or livelock, no uncaught exception, "
         "every accepted future completes and its waiters get the process output, a job whose limit expired surfaces as TimeoutExpired / `unknown` and never as a result, the limit handed to the process layer is the configured one, once shutdown() has returned "
         "nobody is still or newly waiting on a live process, submit after shutdown is refused, no process is alive at the end. A free-running pass with real threads and real echo/sleep/sh subprocesses checks the simulated protocol.",
         "Trusted: mc/sched.py (scheduler, shims, simulated Popen/psutil semantics incl. EBADF when cancel() closes the pipes under communicate()). Memory-model effects below Python statement granularity and real signal delivery latencies are not modelled. "
